@@ -63,6 +63,9 @@ CORPUS = [
     ('gfa2', _adds(['S\tA\t10\t*', 'S\tB\t10\t*', 'E\te1\tA+\tB+\t7\t10$\t0\t3\t*', 'G\tg1\tA+\tB-\t5\t*', 'U\tu1\tA B', 'O\to1\tA+ B+'])
      + [('rename', 'e1', '*'), ('rename', 'g1', '*'), ('rename', 'u1', '*'), ('rename', 'o1', '*'),
         ('add', 'G\te1\tB+\tA-\t1\t*'), ('add', 'U\tg1\tA'), ('rename', 'A', 'u1')]),
+    # the complement of a stored link whose overlap is not its own complement adds nothing and raises nothing
+    ('gfa1', _adds(['S\tA\t*', 'S\tB\t*', 'L\tA\t+\tB\t+\t3M1I2M', 'L\tB\t-\tA\t-\t2M1D3M', 'L\tA\t-\tA\t+\t1M1D', 'L\tA\t-\tA\t+\t1I1M',
+                    'L\tB\t-\tA\t-\t2M1D3M', 'L\tA\t+\tB\t+\t3M1I2M'])),
     # a link with an unspecified overlap under paths that quote an overlap, along and against the link; the link goes
     ('gfa1', _adds(['S\ta\t*', 'S\tb\t*', 'L\ta\t+\tb\t+\t*', 'P\tfwd\ta+,b+\t4M', 'P\trev\tb-,a-\t4M', 'P\tany\tb-,a-\t*'])
      + [('rmline', 'L\ta\t+\tb\t+\t*'), ('add', 'L\tb\t-\ta\t-\t4M')]),
